@@ -13,6 +13,7 @@ type Scenario struct {
 	W       *World
 	Main    []*Node          // canonical chain, by construction order (genesis first)
 	Side    []*Node          // a fork
+	Side2   []*Node          // a late, short fork (same shuffling as the main chain for the following epoch)
 	BySlot  map[common.Slot]*Node
 	Special map[string]common.ValidatorIndex // validators with a history: exited, slashed
 }
@@ -71,6 +72,11 @@ func buildChain(w *World, last common.Slot) *Scenario {
 		}
 		side = n
 		sc.Side = append(sc.Side, n)
+	}
+	if p := sc.BySlot[29]; p != nil && last >= 30 {
+		if n := w.AddBlock("t30", p, 30, BlockOps{Graffiti: 0xdd}); n != nil {
+			sc.Side2 = append(sc.Side2, n)
+		}
 	}
 	return sc
 }
